@@ -170,6 +170,30 @@ func ruleFieldBij(r *Run) {
 		_, ok := getM[f]
 		r.Check("field-bij", f+":read-back", setFn.Pos(), ok, fmt.Sprintf("SetPageSettings stores %s into the section properties; GetPageSettings must read it back", f))
 	}
+	// (2b) orientation round trip: if the read path INFERS the orientation from the dimensions when
+	// w:orient is absent, the write path must state w:orient for both orientations — otherwise a
+	// portrait page that is wider than tall is read back as landscape (and then written as such).
+	if gi := getM["PageSettings.Orientation"]; gi != nil {
+		infers := gi.reads["PageSizeXML.W"] || gi.reads["PageSizeXML.H"]
+		conditional := false
+		forEachInstr(setGroup, func(in ssa.Instruction) {
+			st, ok := in.(*ssa.Store)
+			if !ok {
+				return
+			}
+			fv, _ := fieldOfAddr(st.Addr)
+			if !fieldIs(p, fv, pkgDoc, "PageSizeXML", "Orient") {
+				return
+			}
+			for _, c := range controlConds(st) {
+				if newSlicer(p).Slice(c).fieldsReadOf(p, psOwner)["PageSettings.Orientation"] {
+					conditional = true
+				}
+			}
+		})
+		r.Check("field-bij", "PageSettings.Orientation:roundtrip", gi.pos.Pos(), !(infers && conditional),
+			fmt.Sprintf("orientation: read path infers it from width/height when w:orient is absent = %v; write path states w:orient only for some orientations = %v — both together make a portrait page wider than tall come back as landscape", infers, conditional))
+	}
 	// (3) R-INV-DEP: the write path of pgSz w/h depends on Orientation (landscape swap); its inverse must too
 	for _, dim := range []struct{ x, p string }{{"PageSizeXML.W", "PageSettings.CustomWidth"}, {"PageSizeXML.H", "PageSettings.CustomHeight"}} {
 		si, gi := setM[dim.x], getM[dim.p]
